@@ -335,6 +335,80 @@ def oracle(D, o, single=False):
     return bad
 
 
+def scale_leaves(A, c):
+    """rebuild an operator through its pytree interface with every floating-point leaf multiplied by c"""
+    flat, unflatten = A.flatten()
+    new = [p_ * c if (hasattr(p_, "dtype") and np.issubdtype(np.asarray(p_).dtype, np.inexact)) else p_ for p_ in flat]
+    return unflatten(new)
+
+
+def pytree_stream(ctx, n_cases, present):
+    """hidden state on operator instances: factorise, rebuild the operator through flatten()/unflatten() with changed leaves (also through .to() and the
+    annotation wrappers), factorise again - the second result must be that of a fresh operator with the new parameters (plain numpy oracle on the rebuilt
+    operator's own payloads), and factorising the same object twice must give the same factors."""
+    import cola
+    cholesky, plu = api()
+    r = ctx.rng
+    g = Gen11(r, present)
+    rows, bad_rows = [], []
+    for ci in range(n_cases):
+        cplx = r.random() < 0.3
+        g.g.single, g.g.kappa = False, 1e3
+        n = r.choice([2, 3, 4, 4, 6])
+        pd = r.random() < 0.6
+        shape_kind = r.choice(["dense", "dense", "tree"])
+        if shape_kind == "dense":
+            if pd:
+                Lo = g.g.lower(n, cplx, posdiag=True)
+                t = dict(k="Dense", dt=g.g.dt(cplx), a=g.g.gmat(Lo @ Lo.conj().T))
+            else:
+                t = dict(k="Dense", dt=g.g.dt(cplx), a=g.g.gmat(g.g.unimod(n, cplx)))
+        else:
+            t = g.pd(n, 2, cplx) if pd else g.ns(n, 2, cplx)
+        if not leaves_ok(t, 1e3) or has_graded(t) or "'g': True" in str(t):
+            continue
+        route = r.choice(["unflatten", "unflatten", "to+unflatten", "PSD+unflatten", "unflatten+PSD", "same"])
+        c = r.choice([4.0, 2.0, 9.0, 3.0])
+        row = dict(n=n, pd=pd, route=route, c=c, kind=t["k"])
+        bad = []
+        try:
+            with warnings.catch_warnings(), np.errstate(all="ignore"):
+                warnings.simplefilter("ignore")
+                A = L.build(t)
+                first = dict(pd=pd, want_dtype=np.dtype(A.dtype))
+                if pd:
+                    C1 = cholesky(A)
+                    first.update(okC=True, C=np.asarray(C1.to_dense()))
+                P1, L1, U1 = plu(A)
+                first.update(okP=True, P=np.asarray(P1.to_dense()), L=np.asarray(L1.to_dense()), U=np.asarray(U1.to_dense()))
+                bad += ["first call: " + b_ for b_ in oracle(T.dense(L.reflect(A)), first)]
+                A2 = A
+                if route.startswith("to"):
+                    A2 = A2.to(None)
+                if route.startswith("PSD") and pd:
+                    A2 = cola.PSD(A2)
+                if route != "same":
+                    A2 = scale_leaves(A2, c)
+                if route.endswith("+PSD") and pd:
+                    A2 = cola.PSD(A2)
+                D2 = T.dense(L.reflect(A2))     # what the rebuilt operator represents, from its own payloads
+                second = dict(pd=pd, want_dtype=np.dtype(A2.dtype))
+                if pd:
+                    C2 = cholesky(A2)
+                    second.update(okC=True, C=np.asarray(C2.to_dense()))
+                P2, L2, U2 = plu(A2)
+                second.update(okP=True, P=np.asarray(P2.to_dense()), L=np.asarray(L2.to_dense()), U=np.asarray(U2.to_dense()))
+                bad += ["after rebuild: " + b_ for b_ in oracle(D2, second)]
+                if route == "same" and not all(np.array_equal(first[k_], second[k_]) for k_ in ("P", "L", "U")):
+                    bad.append("factorising the same operator twice gives different factors")
+        except Exception as e:
+            bad.append(f"raised {type(e).__name__}: {str(e)[:160]}")
+        rows.append(row)
+        if bad:
+            bad_rows.append(dict(oracle_fail=True, case=dict(tree=t, **row), failed_clauses=bad))
+    return rows, bad_rows
+
+
 def run(ctx):
     fnd = findings()
     present = {f["flag"] for f in fnd if f["present"]}
@@ -392,6 +466,8 @@ def run(ctx):
         if bad or i in failing:
             oo = {k: (v.tolist() if isinstance(v, np.ndarray) else v) for k, v in o.items() if k in ("pd", "okC", "okP", "errC", "errP", "tyC_str", "tyPLU_str", "C", "P", "L", "U")}
             mism.append(dict(oracle_fail=bool(bad), case=dict(tree=cases[ci]["reflected"], pd=cases[ci]["pd"]), got=oo, failed_clauses=bad, model_disagrees=(i in failing)))
+    pt_rows, pt_bad = pytree_stream(ctx, ctx.budget(120, 1000), present)
+    mism += pt_bad
     used = [cases[ci] for ci, _, _ in meta]
     kh = {}
     for c in used:
@@ -404,13 +480,13 @@ def run(ctx):
             h = o["tyPLU_str"][1].split("[")[0]
             types[h] = types.get(h, 0) + 1
     return dict(
-        evaluations=len(terms), distinct_nontrivial=distinct,
+        evaluations=len(terms) + len(pt_rows), distinct_nontrivial=distinct,
         rule="random positive definite trees (cholesky + plu) and non-singular trees (plu) over Dense, Identity, Diagonal, ScalarMul, Kronecker with 2-3 factors of unequal size, "
              "BlockDiag with multiplicities <= 3, nestings to depth %d, plus Product/Sum/Transpose/Triangular/Permutation/... inputs that take the dense path; real and complex; "
              "non-trivial = depth>=2; distinct by reflected tree hash" % dmax,
         samples=[dict(tree=c["reflected"], pd=c["pd"]) for c in used[:2]],
         mismatches=mism, findings=fnd,
-        extra=dict(kind_histogram=kh, positive_definite=sum(1 for c in used if c["pd"]), single_precision=sum(1 for c in used if c.get("single")),
+        extra=dict(kind_histogram=kh, pytree_rebuild_cases=len(pt_rows), pytree_routes={k_: sum(1 for r_ in pt_rows if r_["route"] == k_) for k_ in sorted({r_["route"] for r_ in pt_rows})}, positive_definite=sum(1 for c in used if c["pd"]), single_precision=sum(1 for c in used if c.get("single")),
                    graded_diagonals=sum(1 for c in used if has_graded(c["reflected"])), complex_trees=sum(1 for c in used if c["cplx"]),
                    L_factor_head_types=types,
                    cholesky_values_in_coq=sum(1 for _, _, o in meta if o.get("numc")), plu_values_in_coq=sum(1 for _, _, o in meta if o.get("nump")),
